@@ -2,6 +2,7 @@ import Proofs.XsdScript
 import Proofs.XsdText
 import Proofs.XsdRel
 import Proofs.ExtractPkgRef
+import Proofs.XsdShape
 
 /-!
   C20 — XSD generation mirrors the component's classes and data types.
@@ -641,5 +642,199 @@ example : xsdSpec (applyXEdit (.addType ⟨60, "Shade", .user 50, .pkg 7⟩) d1R
 example : (xsdSpec (applyXEdit (.addType ⟨60, "Shade", .user 50, .pkg 7⟩) d1Ref) 6).types.map XType.name =
     ["boolean", "integer", "string", "Weekday", "Shade", "Color", "MyInt"] ∧
     (xsdSpec (applyXEdit (.moveClass 4 .none) d1Ref) 6).classes.map (·.kl) = ["OWN", "DOG", "LSH"] := by decide
+
+section SourceShape
+open Pyx.XShape Pyx.Gen.XsdShape
+
+/-! ### the statement structure of gen_xsd_schema.py (`Gen/XsdShape.lean`, regenerated from the source on every run)
+
+  `interp d fuel f args` (Proofs/XsdShape.lean) is the generic interpretation of the IR of the function `f` over the diagram `d`:
+  navigations, selections, filters, loops, conditionals and ElementTree calls mean what they mean for ANY IR value; a call of
+  another function of the module (or of ooaofooa.is_global / is_contained_in) means what the MODEL says that function returns
+  (`oracle`).  Each theorem: the body of the function, as it stands in the source now, returns what the model says for the
+  function itself — for every diagram.  `many(...)` / `select_many`: the interpreter iterates in MODELED order (d.dts,
+  d.classes, R102 = off-chain attributes then the R103 chain); the real order is row order, the harness canonicalises. -/
+
+/-- get_type_name: core types 1..5, enumerations and user types return the name (S_SDT and the rest: None; navigating from
+    None: None); the model's `typeNameOf` is that name tested for truthiness, as every caller does -/
+theorem get_type_name_as_in_source (d : ClassDiagram) (fuel : Nat) :
+    (∀ t, interp d fuel get_type_name [.ent (.sdt t)] = some (optStr (rawTypeName t))) ∧
+    interp d fuel get_type_name [.none] = some .none ∧
+    (∀ b, typeNameOf d.dts b = ((findDt d.dts b).bind rawTypeName).filter (fun s => s != "")) :=
+  ⟨get_type_name_eq d fuel, get_type_name_none_eq d fuel, typeNameOf_raw d.dts⟩
+
+/-- get_refered_attribute: O_RATTR[106].O_BATTR[113].O_ATTR[106], recursively (the recursive call read by the oracle:
+    `referred` satisfies the equation of the source); the model's `attrDt` is the R114 type of that attribute -/
+theorem get_refered_attribute_as_in_source (d : ClassDiagram) (fuel : Nat) (a : Attr) :
+    interp d fuel get_refered_attribute [.ent (.attr a)] = some (.ent (.attr (referred d a))) ∧
+    (attrDt d a).bind (findDt d.dts) = dtOfAttr d (referred d a) :=
+  ⟨get_refered_attribute_eq d fuel a, cur0_eq d a⟩
+
+/-- build_core_type: the if/elif chain on the NAME (the IR has it statement by statement; `coreXs` reads Gen.XsdCore.table),
+    `if type_name:`, simpleType name= / restriction base= -/
+theorem build_core_type_as_in_source (d : ClassDiagram) (fuel : Nat) (t : DataType) :
+    interp d fuel build_core_type [.ent (.cdt t)] =
+      some (optTree ((coreXs t.name).map (fun b => renderType (.restriction t.name b)))) :=
+  build_core_type_eq d fuel t
+
+/-- build_enum_type: starts at the enumerator that succeeds none (R56), follows 'precedes', one xs:enumeration value= per
+    enumerator inside restriction base="xs:string"; the name is NOT tested.  Fuel: one unit per test of `while s_enum`. -/
+theorem build_enum_type_as_in_source (d : ClassDiagram) (fuel : Nat) (t : DataType) (hfuel : (enumsOf t).length < fuel) :
+    interp d fuel build_enum_type [.ent (.edt t)] = some (.tree (renderType (.enumeration t.name (enumsOf t)))) :=
+  build_enum_type_eq d fuel t hfuel
+
+/-- build_user_type: R17 for the name, R18 for the base, `if base_name:` -/
+theorem build_user_type_as_in_source (d : ClassDiagram) (fuel : Nat) (t : DataType) (b : Nat) (hk : t.kind = .user b) :
+    interp d fuel build_user_type [.ent (.udt t)] =
+      some (optTree ((typeNameOf d.dts b).map (fun bn => renderType (.restriction t.name bn)))) :=
+  build_user_type_eq d fuel t b hk
+
+/-- build_type: S_CDT, then S_EDT, then S_UDT over R17; anything else (S_SDT: the call is commented out) yields None -/
+theorem build_type_as_in_source (d : ClassDiagram) (fuel : Nat) (t : DataType) :
+    interp d fuel build_type [.ent (.sdt t)] = some (optTree ((xtypeOf d.dts t).map renderType)) :=
+  build_type_eq d fuel t
+
+/-- build_class: xs:element name=Key_Lett minOccurs maxOccurs / xs:complexType / per attribute across R102: the referred
+    attribute's R114 type, the `while S_UDT` walk, get_type_name, `if type_name and not …O_DBATTR[107]`, xs:attribute
+    name= type=.  Fuel of the walk = the model's (`baseTypeName`), never exhausted on acyclic user-type chains (XWF). -/
+theorem build_class_as_in_source {d : ClassDiagram} (xwf : XWF d) (c : Class) :
+    interp d (d.dts.length + 1) build_class [.ent (.obj c)] = some (.tree (renderClass (xclassAll d c))) :=
+  build_class_eq d xwf.chain c
+
+/-- build_component: xs:element name= / complexType / sequence; the classes selected by is_contained_in(·, c_c), each
+    appended in order -/
+theorem build_component_as_in_source (d : ClassDiagram) (fuel : Nat) (k : Container) :
+    interp d fuel build_component [.model, .ent (.cc k)] =
+      some (.tree (renderComp k.name ((d.classes.filter (fun c => containedIn d.containers d.pkgrefs k.id c.parent)).map (xclassAll d)))) :=
+  build_component_eq d fuel k
+
+/-- build_schema IS `xsd`: xs:schema with xmlns:xs; loop 1 over the data types with is_global; loop 2 over those with
+    `is_contained_in(·, c_c) and not is_global(·)` (fix 6208c4e); `is not None` before each append; the component last -/
+theorem build_schema_as_in_source (d : ClassDiagram) (fuel : Nat) (comp : Nat) (k : Container)
+    (hk : findContainer d.containers true comp = some k) :
+    interp d fuel build_schema [.model, .ent (.cc k)] = some (.tree (xsd d comp)) := by
+  have hid : k.id = comp := by
+    have := List.find?_some hk
+    simp only [Bool.and_eq_true, beq_iff_eq] at this
+    exact this.2
+  rw [build_schema_eq d fuel k, hid]
+  unfold xsd xsdSpec compName
+  rw [hk]
+  rfl
+
+/-- what main / prettify select: the first C_C whose Name is the option, build_schema(m, c_c), exit status 1 without one, four
+    blanks of indent -/
+theorem main_as_in_source :
+    mainShape = { selectFn := "select_any", selectClass := "C_C", selectField := "name", buildArgs := ["m", "c_c"],
+                  missingExit := 1, indent := "    " } := by decide
+
+/-! non-vacuity: the theorems applied to d1 / d1Ref, and hand-MUTATED IRs that give another tree -/
+
+/-- the text of the tree a call returned (trees are compared as the written text) -/
+def outText : Option V → Option (List Char)
+  | some (.tree t) => some (nodeText [] t)
+  | _ => none
+
+def compK : Container := ⟨true, 6, "Comp", .none⟩
+
+/-- `build_schema_as_in_source` applied: the interpretation of the generated IR on d1Ref is the model's tree -/
+example : interp d1Ref 9 build_schema [.model, .ent (.cc compK)] = some (.tree (xsd d1Ref 6)) :=
+  build_schema_as_in_source d1Ref 9 6 compK (by decide)
+
+/-- `build_class_as_in_source` applied to Dog (user type walked to its base, enumeration, referential attribute) and to
+    Owner (the derived attribute is skipped) -/
+example : interp d1 9 build_class [.ent (.obj ⟨2, "DOG", [⟨21, "tag", .base 51⟩, ⟨22, "color", .base 50⟩, ⟨23, "owner_id", .ref 1 11⟩], [⟨0, [21]⟩, ⟨1, []⟩], .pkg 5⟩)] =
+    some (.tree (renderClass ⟨"DOG", [⟨"tag", "integer"⟩, ⟨"color", "Color"⟩, ⟨"owner_id", "integer"⟩]⟩)) :=
+  (build_class_as_in_source d1_xwf _).trans (congrArg (fun x => some (V.tree (renderClass x))) (by decide))
+
+example : outText (interp d1 9 build_class [.ent (.obj ⟨1, "OWN", [⟨11, "id", .base 102⟩, ⟨12, "name", .base 104⟩, ⟨13, "age", .derived 102⟩], [⟨0, [11]⟩], .pkg 5⟩)]) =
+    some (nodeText [] (renderClass ⟨"OWN", [⟨"id", "integer"⟩, ⟨"name", "string"⟩]⟩)) :=
+  (congrArg outText (build_class_as_in_source d1_xwf _)).trans (by decide +kernel)
+
+/-- `build_enum_type_as_in_source` / `build_user_type_as_in_source` applied -/
+example : interp d1 3 build_enum_type [.ent (.edt ⟨50, "Color", .enum ["red", "green"], .pkg 5⟩)] =
+    some (.tree (renderType (.enumeration "Color" ["red", "green"]))) :=
+  build_enum_type_as_in_source d1 3 _ (by decide)
+
+example : interp d1 0 build_user_type [.ent (.udt ⟨52, "Weekday", .user 50, .pkg 7⟩)] =
+    some (.tree (renderType (.restriction "Weekday" "Color"))) :=
+  (build_user_type_as_in_source d1 0 _ 50 rfl).trans
+    (congrArg (fun o => some (optTree (o.map (fun bn => renderType (.restriction "Weekday" bn))))) (show typeNameOf d1.dts 50 = some "Color" by decide))
+
+/-- MUTATION 1 (derived attributes no longer skipped: `if type_name:`): Owner.age appears — another tree -/
+def build_class_mut : Fn :=
+  { build_class with body :=
+    [ .element "cls" "xs:element" [("name", (.field "o_obj" "key_lett")), ("minOccurs", (.str "0")), ("maxOccurs", (.str "unbounded"))],
+      .subElement (some "attributes") "cls" "xs:complexType" [],
+      .forIn "o_attr" (.nav .many "o_obj" [⟨"O_ATTR", 102, ""⟩] none) [
+        .assign "o_attr_ref" (.call "get_refered_attribute" ["o_attr"]),
+        .assign "s_dt" (.nav .any "o_attr_ref" [⟨"S_DT", 114, ""⟩] none),
+        .whileDo (.nav .any "s_dt" [⟨"S_UDT", 17, ""⟩] none) [
+          .assign "s_dt" (.nav .any "s_dt" [⟨"S_UDT", 17, ""⟩, ⟨"S_DT", 18, ""⟩] none) ],
+        .assign "type_name" (.call "get_type_name" ["s_dt"]),
+        .ifThen (.var "type_name") [
+          .subElement none "attributes" "xs:attribute" [("name", (.field "o_attr" "name")), ("type", (.var "type_name"))] ] [
+          .log "warning" ] ],
+      .ret (.var "cls") ] }
+
+example : outText (interp d1 9 build_class_mut [.ent (.obj ⟨1, "OWN", [⟨11, "id", .base 102⟩, ⟨12, "name", .base 104⟩, ⟨13, "age", .derived 102⟩], [⟨0, [11]⟩], .pkg 5⟩)]) =
+    some (nodeText [] (renderClass ⟨"OWN", [⟨"id", "integer"⟩, ⟨"name", "string"⟩, ⟨"age", "integer"⟩]⟩)) := by decide +kernel
+
+/-- MUTATION 2 (fix 6208c4e reverted: the second loop takes every contained data type): on d1Ref Weekday, global AND
+    contained, is declared twice — the tree differs from the model's -/
+def build_schema_mut : Fn :=
+  { build_schema with body :=
+    [ .element "schema" "xs:schema" [],
+      .setAttr "schema" "xmlns:xs" (.str "http://www.w3.org/2001/XMLSchema"),
+      .lambda "global_filter" "selected" (.call "ooaofooa.is_global" ["selected"]),
+      .forIn "s_dt" (.selectMany "m" "S_DT" (some "global_filter")) [
+        .assign "datatype" (.call "build_type" ["s_dt"]),
+        .ifThen (.isNotNone (.var "datatype")) [ .append "schema" (.var "datatype") ] [] ],
+      .lambda "scope_filter" "selected" (.call "ooaofooa.is_contained_in" ["selected", "c_c"]),
+      .forIn "s_dt" (.selectMany "m" "S_DT" (some "scope_filter")) [
+        .assign "datatype" (.call "build_type" ["s_dt"]),
+        .ifThen (.isNotNone (.var "datatype")) [ .append "schema" (.var "datatype") ] [] ],
+      .assign "component" (.call "build_component" ["m", "c_c"]),
+      .append "schema" (.var "component"),
+      .ret (.var "schema") ] }
+
+def outTypeNames : Option V → List (Option String)
+  | some (.tree t) => (simpleTypeNodes t).map (·.attr "name")
+  | _ => []
+
+example : outTypeNames (interp d1Ref 9 build_schema_mut [.model, .ent (.cc compK)]) =
+      [some "boolean", some "integer", some "string", some "Weekday", some "Color", some "MyInt", some "Weekday"] ∧
+    outTypeNames (interp d1Ref 9 build_schema [.model, .ent (.cc compK)]) =
+      [some "boolean", some "integer", some "string", some "Weekday", some "Color", some "MyInt"] ∧
+    outText (interp d1 9 build_schema_mut [.model, .ent (.cc compK)]) = outText (some (.tree (xsd d1 6))) := by decide +kernel
+
+/-- MUTATION 3 (the enumerator loop follows 'succeeds' instead of 'precedes'): only the first enumerator is written -/
+def build_enum_type_mut : Fn :=
+  { build_enum_type with body :=
+    [ .assign "s_dt" (.nav .any "s_edt" [⟨"S_DT", 17, ""⟩] none),
+      .element "enum" "xs:simpleType" [("name", (.field "s_dt" "name"))],
+      .subElement (some "enum_list") "enum" "xs:restriction" [("base", (.str "xs:string"))],
+      .lambda "first_filter" "selected" (.not_ (.nav .any "selected" [⟨"S_ENUM", 56, "succeeds"⟩] none)),
+      .assign "s_enum" (.nav .any "s_edt" [⟨"S_ENUM", 27, ""⟩] (some "first_filter")),
+      .whileDo (.var "s_enum") [
+        .subElement none "enum_list" "xs:enumeration" [("value", (.field "s_enum" "name"))],
+        .assign "s_enum" (.nav .any "s_enum" [⟨"S_ENUM", 56, "succeeds"⟩] none) ],
+      .ret (.var "enum") ] }
+
+example : outText (interp d1 3 build_enum_type_mut [.ent (.edt ⟨50, "Color", .enum ["red", "green"], .pkg 5⟩)]) =
+    some (nodeText [] (renderType (.enumeration "Color" ["red"]))) := by decide +kernel
+
+/-- MUTATION 4 (another association number in get_refered_attribute: R114 for R113): the interpretation reaches nothing,
+    a referential attribute is returned as it is -/
+example : interp d1 0 { get_refered_attribute with body :=
+      [ .assign "o_attr_ref" (.nav .any "o_attr" [⟨"O_RATTR", 106, ""⟩, ⟨"O_BATTR", 114, ""⟩, ⟨"O_ATTR", 106, ""⟩] none),
+        .ifThen (.var "o_attr_ref") [ .ret (.call "get_refered_attribute" ["o_attr_ref"]) ] [ .ret (.var "o_attr") ] ] }
+      [.ent (.attr ⟨23, "owner_id", .ref 1 11⟩)] = some (.ent (.attr ⟨23, "owner_id", .ref 1 11⟩)) ∧
+    referred d1 ⟨23, "owner_id", .ref 1 11⟩ = ⟨11, "id", .base 102⟩ := by
+  constructor
+  · rfl
+  · decide
+
+end SourceShape
 
 end PyxProps.C20
